@@ -143,12 +143,18 @@ def run(ctx):
     hb, hlog = ctx.build_harness(HARNESS)
     ctx.log("harness built")
     meta, res = {}, {}
-    kinds = {"ecases": "eval", "scases": "sort", "pcases": "parse", "ipcases": "ip"}
+    kinds = {"ecases": "eval", "scases": "sort", "pcases": "parse", "ipcases": "ip", "xcases": "route"}
     bad = {k: {"M": [], "P": [], "U": []} for k in kinds}
     if hb is None:
         ob_failed.append("harness does not build against the source tree: " + hlog[-800:])
     else:
         args = [hb, "-seed", str(ctx.seed), "-tier", ctx.tier, "-out", ctx.work]
+        fwd = os.path.join(ctx.work, "forwarder")
+        rc, blog = common.sh([common.go_cmd(), "build", "-o", fwd, "./cmd/forwarder"], cwd=ctx.repo, env=common.go_env(), timeout=900)
+        if rc != 0:
+            ob_failed.append("forwarder binary does not build: " + blog[-600:])
+        else:
+            args += ["-forwarder", fwd]
         if ctx.replay:
             rp = json.load(open(ctx.replay))
             rp = rp.get("replay", rp)
@@ -161,6 +167,8 @@ def run(ctx):
             ob_failed.append("harness failed: " + out[-800:])
         else:
             meta = json.load(open(os.path.join(ctx.work, "meta.json")))
+            if meta.get("e2e_error"):
+                ob_failed.append("scripts through the real proxy: " + meta["e2e_error"])
             ctx.log("harness ran: %s" % meta.get("counts"))
             res = coq_eval(ctx, meta["shards"])
             ctx.log("shards evaluated")
@@ -209,6 +217,18 @@ def run(ctx):
         ctx.violation("eval-correspondence", dict(c, kind="eval", unchecked="correspondence model(g14 find_proxy)/pac.ProxyResolver"),
                       False, "%d scripts on which model and implementation differ although the reference agrees with the implementation; smallest: %s"
                       % (len(bad["ecases"]["M"]), json.dumps(c)[:400]))
+    # scripts through the real binary
+    if bad["xcases"]["P"]:
+        c = smallest(bad["xcases"]["P"])
+        ctx.violation("e2e-pac-route-differs-from-reference", dict(c, kind="route"), True,
+                      "%d requests through the real binary with --pac that are routed (origin / upstream A / upstream B / failure) differently "
+                      "from what the reference semantics of the script and of its result's first entry demands; smallest script: %s"
+                      % (len(bad["xcases"]["P"]), json.dumps(c)[:400]))
+    elif bad["xcases"]["M"]:
+        c = smallest(bad["xcases"]["M"])
+        ctx.violation("e2e-pac-route-correspondence", dict(c, kind="route", unchecked="resolver API / model vs routing of the real binary with --pac"),
+                      False, "%d requests on which the resolver API (or the model) and the real proxy's routing disagree; smallest script: %s"
+                      % (len(bad["xcases"]["M"]), json.dumps(c)[:400]))
     # sortIpAddressList
     if bad["scases"]["P"]:
         c = smallest(bad["scases"]["P"])
@@ -301,6 +321,8 @@ def run(ctx):
                                     "meaning": "a glob pattern with a JavaScript regexp metacharacter other than . * ? "
                                                "(outside the property's domain; Mozilla's helper treats it as regexp syntax)"},
         "distribution": {k: meta.get(k) for k in ("counts", "helper_calls_in_scripts", "entry_point_variants", "evaluation_outcomes")},
+        "e2e_real_binary": {"routes": meta.get("e2e_routes"), "scripts": counts.get("scripts_through_the_real_proxy"),
+                            "requests": counts.get("requests_through_the_real_proxy")},
         "pool": dict({k: pool.get(k) for k in ("scripts", "goroutines", "calls")}, race_detector=race),
         "samples": [{"scripts": meta.get("samples_scripts")}, {"result_lists": meta.get("samples_result_lists")}],
     }
